@@ -390,7 +390,13 @@ start:
 
 			switch v := instr.(type) {
 			case *ir.Convert:
-				s.set(v, s.get(v.X))
+				if typeutil.IsPointerLike(v.X.Type()) {
+					s.set(v, s.get(v.X))
+				} else {
+					// unsafe.Pointer(uintptr), []byte(string): the operand
+					// says nothing about the result.
+					s.set(v, ValueNilness{MaybeNil, MaybeNil})
+				}
 			case *ir.SliceToArrayPointer:
 				// Go does not currently allow (*T)(s) where T is a type
 				// parameter with a type set consisting of array types, but it
